@@ -66,10 +66,10 @@ pub fn tier_for(prop: &str, tier: &str) -> Tier {
         ("C13", false) => (1_000_000, 600),
         ("C15", true) => (4_000, 45),
         ("C15", false) => (200_000, 600),
-        ("C16", true) => (30_000, 40),
-        ("C16", false) => (4_000_000, 600),
-        ("C17", true) => (30_000, 40),
-        ("C17", false) => (4_000_000, 600),
+        ("C16", true) => (8_000, 40),
+        ("C16", false) => (2_000_000, 600),
+        ("C17", true) => (8_000, 40),
+        ("C17", false) => (2_000_000, 600),
         ("C19", true) => (150_000, 30),
         ("C19", false) => (20_000_000, 360),
         ("C20", true) => (5_000, 45),
